@@ -37,7 +37,7 @@ try:
             kinds = [l for l in r.stdout.splitlines() if l.startswith("violation kind")]
             meta["ran"].append({"check": c, "tier": tier, "rc": r.returncode, "kinds": kinds[:3], "wall_s": round(time.time() - t0, 1)})
         if "no-suite" not in opts:
-            r = sh(["/venv/bin/python", "/tmp/baseline_cmp.py", wt], env=env)
+            r = sh([os.path.join(ROOT, "tools/baseline.py"), wt], env=dict(env, XDIST="1"))
             meta["suite"] = r.stdout.strip().splitlines()[0] if r.stdout.strip() else r.stderr[-300:]
     meta["caught_by"] = [x["check"] for x in meta["ran"] if x["rc"] == 1]
     os.makedirs(dst, exist_ok=True)
